@@ -224,6 +224,12 @@ class Str(V):
 
 
 @dataclass(frozen=True)
+class LinesV(V):
+    """text.splitlines() of a non-constant string."""
+    src: object     # Str
+
+
+@dataclass(frozen=True)
 class Bytes(V):
     s: object       # Str / Const str / Unk
     enc: str
